@@ -95,6 +95,15 @@ QueueNext(Z) == ~AggFirst(Z) /\ ~BlkFirst(Z) /\ QT(Z) <= ST(Z) /\ QT(Z) <= IT(Z)
 TimerNext(Z) == ~AggFirst(Z) /\ ~BlkFirst(Z) /\ ~QueueNext(Z) /\ IT(Z) <= ST(Z)
 ActionNext(Z) == ~AggFirst(Z) /\ ~BlkFirst(Z) /\ ~QueueNext(Z) /\ ~TimerNext(Z)
 
+\* the five candidate times computed once (TLC re-evaluates operator applications: steps take P)
+Times(Z) == [st |-> ST(Z), it |-> IT(Z), bt |-> BT(Z), qt |-> QT(Z), nt |-> NT(Z)]
+PNothing(P) == P.st = Inf /\ P.it = Inf /\ P.bt = Inf /\ P.qt = Inf /\ P.nt = Inf
+PAggFirst(P) == P.nt # Inf /\ P.nt <= P.st /\ P.nt <= P.it /\ P.nt <= P.bt /\ P.nt <= P.qt
+PBlkFirst(P) == ~PAggFirst(P) /\ P.bt <= P.st /\ P.bt <= P.it /\ P.bt <= P.qt
+PQueueNext(P) == ~PAggFirst(P) /\ ~PBlkFirst(P) /\ P.qt <= P.st /\ P.qt <= P.it
+PTimerNext(P) == ~PAggFirst(P) /\ ~PBlkFirst(P) /\ ~PQueueNext(P) /\ P.it <= P.st
+PActionNext(P) == ~PAggFirst(P) /\ ~PBlkFirst(P) /\ ~PQueueNext(P) /\ ~PTimerNext(P)
+
 ---------------------------------------------------------------------------
 \* lines
 EvLine(c, e, m, t, p, bp, rp) == [k |-> "ev", c |-> c, e |-> e, m |-> m, t |-> t, p |-> p, bp |-> bp, rp |-> rp]
@@ -106,6 +115,7 @@ ExitLine(reason, it) == [k |-> "exit", reason |-> reason, it |-> it, len |-> it]
 AggPopLine(c, d) == [k |-> "aggpop", c |-> c, d |-> d]
 AggLine(c, d) == [k |-> "agg", c |-> c, d |-> d]
 RecvLine(c, t, p) == [k |-> "recv", c |-> c, t |-> t, p |-> p]
+ReplLine(c, requeued) == [k |-> "repl", c |-> c, requeued |-> requeued]
 
 ---------------------------------------------------------------------------
 \* choices: [kind, s, i, ev, f, agg, extra]; agg = amount of an aggregate delay pushed by this
@@ -114,27 +124,30 @@ Choice(kind, s, i, ev, f) == [kind |-> kind, s |-> s, i |-> i, ev |-> ev, f |-> 
 NoEv == Ev(0, "-", -1, 0, FALSE, FALSE, FALSE)
 
 \* the events that can be processed next, as <<side, event>>; base heads are NormalSent with id 0
-QueueCands(Z) ==
-  {<<s, e>> \in UNION {{<<x, y>> : y \in Z.sd[x].q} : x \in Sides} :
-     AtLeastNow(Z, EffTime(Z, s, e)) = QT(Z)}
-  \cup {<<s, Ev(0, "NormalSent", -1, QT(Z), FALSE, FALSE, FALSE)>> : s \in
-          {x \in Sides : Z.sd[x].base # <<>> /\ AtLeastNow(Z, BaseTime(Z, x)) = QT(Z)}}
+QueueCandsAt(Z, qt) ==
+  {c \in UNION {{<<x, y>> : y \in Z.sd[x].q} : x \in Sides} :
+     AtLeastNow(Z, EffTime(Z, c[1], c[2])) = qt}
+  \cup {<<s, Ev(0, "NormalSent", -1, qt, FALSE, FALSE, FALSE)>> : s \in
+          {x \in Sides : Z.sd[x].base # <<>> /\ AtLeastNow(Z, BaseTime(Z, x)) = qt}}
+QueueCands(Z) == QueueCandsAt(Z, QT(Z))
 \* ties between the sides' expiries go to the server
-BlkSide(Z) == IF 2 \in BlkCands(Z) /\ Z.sd[2].blk.until = BT(Z) THEN 2 ELSE 1
+BlkSideAt(Z, bt) == IF 2 \in BlkCands(Z) /\ Z.sd[2].blk.until = bt THEN 2 ELSE 1
+BlkSide(Z) == BlkSideAt(Z, BT(Z))
 
 \* Oracle(Z, s): the set of functions machine -> action the framework of side s may return
 ZChoices(Z, Oracle(_, _)) ==
+  LET P == Times(Z) IN
   IF Z.done THEN {}
-  ELSE IF Nothing(Z) \/ Z.nev >= Z.cf.maxEvents THEN {Choice("finish", 1, 0, NoEv, <<>>)}
-  ELSE IF AggFirst(Z) THEN
-         {Choice("aggpop", x.s, x.id, NoEv, <<>>) : x \in {y \in Z.pending : AtLeastNow(Z, y.t) = NT(Z)}}
-  ELSE IF BlkFirst(Z) THEN
-         {Choice("blk", BlkSide(Z), 0, NoEv, f) : f \in Oracle(Z, BlkSide(Z))}
-  ELSE IF QueueNext(Z) THEN
-         UNION {{Choice("queue", c[1], 0, c[2], f) : f \in Oracle(Z, c[1])} : c \in QueueCands(Z)}
-  ELSE IF TimerNext(Z) THEN
-         {Choice("timer", c[1], c[2], NoEv, <<>>) : c \in {x \in TimCands(Z) : Z.sd[x[1]].tim[x[2]].due = IT(Z)}}
-  ELSE   {Choice("action", c[1], c[2], NoEv, <<>>) : c \in {x \in ActCands(Z) : Z.sd[x[1]].act[x[2]].due = ST(Z)}}
+  ELSE IF PNothing(P) \/ Z.nev >= Z.cf.maxEvents THEN {Choice("finish", 1, 0, NoEv, <<>>)}
+  ELSE IF PAggFirst(P) THEN
+         {Choice("aggpop", x.s, x.id, NoEv, <<>>) : x \in {y \in Z.pending : AtLeastNow(Z, y.t) = P.nt}}
+  ELSE IF PBlkFirst(P) THEN
+         {Choice("blk", BlkSideAt(Z, P.bt), 0, NoEv, f) : f \in Oracle(Z, BlkSideAt(Z, P.bt))}
+  ELSE IF PQueueNext(P) THEN
+         UNION {{Choice("queue", c[1], 0, c[2], f) : f \in Oracle(Z, c[1])} : c \in QueueCandsAt(Z, P.qt)}
+  ELSE IF PTimerNext(P) THEN
+         {Choice("timer", c[1], c[2], NoEv, <<>>) : c \in {x \in TimCands(Z) : Z.sd[x[1]].tim[x[2]].due = P.it}}
+  ELSE   {Choice("action", c[1], c[2], NoEv, <<>>) : c \in {x \in ActCands(Z) : Z.sd[x[1]].act[x[2]].due = P.st}}
 
 ---------------------------------------------------------------------------
 \* trigger_update: apply the returned actions f[1..n] of one side at time t
@@ -203,6 +216,7 @@ Process(Z0, s, e, t, f, agg, extra, aggFirst) ==
       lines == (IF aggFirst THEN aggl ELSE <<>>)
                \o <<EvLine(IsC(s), e.e, e.m, t, e.p, e.bp, e.rp)>>
                \o (IF aggFirst THEN <<>> ELSE aggl)
+               \o (IF e.e = "PaddingSent" /\ e.rp /\ (\E x \in head : ~x.p) THEN <<ReplLine(IsC(s), e.bp)>> ELSE <<>>)
                \o (IF e.e = "TunnelSent" THEN <<RecvLine(IsC(other), t + Z0.cf.delay + extra, e.p)>> ELSE <<>>)
                \o [j \in 1..used |-> ActLine(IsC(s), t, r.acc.acts[j][2], r.acc.acts[j][1])]
       \* stop test (no_normal_packets)
